@@ -403,8 +403,27 @@ def extract(src, problems, soft=()):
                     raise Bad('class-level statement %s' % ast.unparse(st))
             elif not (isinstance(st, ast.Expr) and isinstance(st.value, ast.Constant)):
                 raise Bad('class-level statement %s' % ast.unparse(st).split('\n')[0])
-        scopes = [cls] + [n for n in url.tree.body if isinstance(n, ast.FunctionDef)]
+        # per function: the dictionaries it may write are its own **keywords and the locals it creates with `{}`
+        # (each bound exactly once: never an alias of matchdict, GET, route_kw ..); the names themselves are free
+        scopes = [n for n in cls.body if isinstance(n, ast.FunctionDef)] + \
+            [n for n in url.tree.body if isinstance(n, ast.FunctionDef)]
         for scope in scopes:
+            own = set()
+            if scope.args.kwarg is not None:
+                own.add(scope.args.kwarg.arg)
+            if scope.name == 'parse_url_overrides' and len(scope.args.args) == 2:
+                own.add(scope.args.args[1].arg)          # parse_url_overrides(request, kw) pops from the caller's dictionary
+            fresh = set()
+            for n in ast.walk(scope):
+                if isinstance(n, ast.Assign) and isinstance(n.value, ast.Dict) and not n.value.keys:
+                    for t in n.targets:
+                        if isinstance(t, ast.Name):
+                            fresh.add(t.id)
+            for nm in fresh:
+                binds = [n for n in ast.walk(scope) if isinstance(n, ast.Name) and isinstance(n.ctx, ast.Store) and n.id == nm]
+                if len(binds) != 1 or nm in own or nm in [a.arg for a in scope.args.args]:
+                    raise Bad('%s.%s: the fresh dictionary %s is bound more than once' % (cls.name, scope.name, nm))
+            own |= fresh
             for n in ast.walk(scope):
                 tgts = []
                 if isinstance(n, ast.Assign):
@@ -418,31 +437,17 @@ def extract(src, problems, soft=()):
                         if isinstance(x, ast.Attribute) and isinstance(x.ctx, (ast.Store, ast.Del)):
                             raise Bad('attribute store %s' % ast.unparse(n).split('\n')[0])
                         if isinstance(x, ast.Subscript) and isinstance(x.ctx, (ast.Store, ast.Del)) and \
-                                not (isinstance(x.value, ast.Name) and x.value.id in ('kw', 'urlkw', 'newkw')):
+                                not (isinstance(x.value, ast.Name) and x.value.id in own):
                             raise Bad('item store outside the keyword dictionaries: %s' % ast.unparse(n).split('\n')[0])
                 if isinstance(n, ast.Call):
                     f = n.func
                     name = f.id if isinstance(f, ast.Name) else f.attr if isinstance(f, ast.Attribute) else ''
                     if name in ('setattr', 'delattr', '__setattr__', 'setdefault') or \
-                            (name in ('update', 'pop', 'clear') and isinstance(f, ast.Attribute)
-                             and not (isinstance(f.value, ast.Name) and f.value.id in ('kw', 'urlkw', 'newkw'))):
+                            (name in ('update', 'pop', 'clear', 'popitem', '__setitem__', '__delitem__') and isinstance(f, ast.Attribute)
+                             and not (isinstance(f.value, ast.Name) and f.value.id in own)):
                         raise Bad('state-changing call %s' % ast.unparse(n))
                 if isinstance(n, ast.Attribute) and n.attr == '__dict__':
                     raise Bad('__dict__ access')
-        # the keyword dictionaries the helpers fill are FRESH ones (never an alias of matchdict, GET, route_kw ..)
-        fresh = 0
-        for n in ast.walk(cls):
-            if isinstance(n, ast.Assign):
-                for t in n.targets:
-                    if isinstance(t, ast.Name) and t.id in ('urlkw', 'newkw'):
-                        if not (isinstance(n.value, ast.Dict) and not n.value.keys):
-                            raise Bad('%s is not a fresh {}: %s' % (t.id, ast.unparse(n)))
-                        fresh += 1
-            if isinstance(n, ast.Name) and isinstance(n.ctx, ast.Store) and n.id in ('urlkw', 'newkw') and \
-                    not any(isinstance(pn, ast.Assign) and n in pn.targets for pn in ast.walk(cls)):
-                raise Bad('%s bound outside a plain assignment' % n.id)
-        if fresh != 2:
-            raise Bad('expected exactly two fresh keyword dictionaries (urlkw in resource_url, newkw in current_route_url), found %d' % fresh)
         for st in url.tree.body:
             if isinstance(st, ast.ImportFrom) and any(a.name in ('reify', 'cached_property', 'cache') for a in st.names):
                 raise Bad('url.py imports %s' % [a.name for a in st.names])
